@@ -458,7 +458,8 @@ impl Conv2dHelper {
             let mut lc = 0; while lc < self.output_channels {
                 let uc = self.output_channels.min(lc + self.output_channel_block);
                 let pt = decryptor.decrypt_new(&outputs.data[eb][lc / self.output_channel_block]);
-                let buffer = encoder.decode_polynomial_new(&pt);
+                let mut buffer = encoder.decode_polynomial_new(&pt);
+                buffer.resize(self.slot_count, 0);
                 for b in lb..ub {
                     for c in lc..uc {
                         for i in 0..yh {
